@@ -300,6 +300,7 @@ def run(rep, tier):
         from . import c10
         c10.clause_escape_flag(facts, rep, ns)
         c10.clause_escape_carry(facts, rep, ns)
+        c10.clause_escaped_bits(facts, rep, tier)
     rep.min_instances('E3.decode-buffer', 4)
     rep.trust('clang 14 front end', 'zone analysis and callee summaries of C11', 'contract of parseStringInplace: scans to the first unescaped quote with VEC_LEN-byte block loads')
     rep.assumptions += [
